@@ -309,7 +309,7 @@ def declareClassicalHelper (symbolId : SymbolIdResult) (initializer : Option TEx
     if isConst init.getType then
       match symbolId with
       | .ok id => insertConstValue id init
-      | .error _ => fail "declare_classical_helper: symbol_id.unwrap() on Err"
+      | .error _ => pure ()      -- a redeclaration: reported already, no symbol to attach the value to
   | none => pure ()
   pure (.declareClassical symbolId initializer)
 
